@@ -45,7 +45,14 @@ type expSet struct {
 	sigs []expSig
 }
 
+type expSet3 struct {
+	rec  rec3
+	ttl  uint32
+	sigs []expSig
+}
+
 type expBundle struct {
+	sets3   []expSet3
 	admitT  int64
 	zone    name
 	cut     int64 // -1: none
@@ -85,6 +92,10 @@ func (s *expUpstream) ServeDNS(ctx context.Context, ch *middleware.Chain) {
 	_ = ch.Writer.WriteMsg(m)
 }
 
+type openGate struct{}
+
+func (openGate) TryAcquire() (func(), bool) { return func() {}, true }
+
 func parseSigs(s string) []expSig {
 	var out []expSig
 	for _, p := range strings.Split(s, "+") {
@@ -117,6 +128,9 @@ func execExp(f []string) vlib.Res {
 			expCache.Stop()
 		}
 		expCache = cache.New(&config.Config{CacheSize: 1024, Expire: 600})
+		// production wiring: the resolver lends the cache its DNSSEC crypto gate
+		// (without one the NSEC3 side of the proof index never answers)
+		expCache.SetDNSSECCryptoLimiter(openGate{})
 		expBase = time.Now().Truncate(time.Second)
 		cache.VerifC02FreezeProofClock(expCache, expBase)
 		expNow, expBundles, expDenied = 0, nil, nil
@@ -131,7 +145,7 @@ func execExp(f []string) vlib.Res {
 		cache.VerifShift(expCache, time.Duration(d)*time.Second)
 		expNow += d
 		return vlib.Res{Impl: "t=" + itoa(int(expNow))}
-	case "put":
+	case "put", "put3":
 		b := &expBundle{admitT: expNow, zone: parseName(f[2]), cut: -1}
 		nx, subject, qtype := f[3] == "nx", parseName(f[4]), uint16(atoi(f[5]))
 		sp := strings.SplitN(f[6], ",", 3)
@@ -140,6 +154,11 @@ func execExp(f []string) vlib.Res {
 			b.cut = int64(atoi(f[7]))
 		}
 		for _, p := range strings.Split(f[8], ";") {
+			if f[1] == "put3" {
+				q := strings.Split(p, "^")
+				b.sets3 = append(b.sets3, expSet3{rec: parseRec3(q[0]), ttl: uint32(atoi(q[1])), sigs: parseSigs(q[2])})
+				continue
+			}
 			q := strings.Split(p, "|")
 			b.sets = append(b.sets, expSet{rec: rec{owner: parseName(q[0]), next: parseName(q[1]), cls: 1, types: parseTypes(q[2])},
 				ttl: uint32(atoi(q[3])), sigs: parseSigs(q[4])})
@@ -169,8 +188,21 @@ func execExp(f []string) vlib.Res {
 				idx++
 			}
 		}
+		for _, st := range b.sets3 {
+			n := st.rec.rr()
+			n.Hdr.Ttl = st.ttl
+			m.Ns = append(m.Ns, n)
+			for _, s := range st.sigs {
+				m.Ns = append(m.Ns, b.rrsig(n.Hdr.Name, dns.TypeNSEC3, s, seq, idx))
+				idx++
+			}
+		}
+		kind := middleware.ValidatedNegativeProofNSEC
+		if f[1] == "put3" {
+			kind = middleware.ValidatedNegativeProofNSEC3
+		}
 		expStub.next = m
-		expStub.mark = middleware.ValidatedNegativeProof{Subject: subject.pres(), Zone: zone, Kind: middleware.ValidatedNegativeProofNSEC, Aggressive: true}
+		expStub.mark = middleware.ValidatedNegativeProof{Subject: subject.pres(), Zone: zone, Kind: kind, Aggressive: true}
 		expStub.cut = time.Time{}
 		if b.cut >= 0 {
 			expStub.cut = expBase.Add(time.Duration(b.cut-b.admitT) * time.Second)
@@ -212,6 +244,9 @@ func execExp(f []string) vlib.Res {
 				for _, st := range b.sets {
 					all = append(all, st.sigs...)
 				}
+				for _, st := range b.sets3 {
+					all = append(all, st.sigs...)
+				}
 				expAt := int64(sig.Expiration) - expBase.Unix() + b.admitT
 				bound, why := expAt, "rrsig-expiration"
 				lower := func(v int64, w string) {
@@ -233,6 +268,11 @@ func execExp(f []string) vlib.Res {
 				} else {
 					for _, st := range b.sets {
 						if strings.EqualFold(st.rec.owner.fold().pres(), sig.Hdr.Name) {
+							lower(b.admitT+int64(st.ttl), "record-ttl")
+						}
+					}
+					for _, st := range b.sets3 {
+						if strings.EqualFold(st.rec.owner().pres(), sig.Hdr.Name) {
 							lower(b.admitT+int64(st.ttl), "record-ttl")
 						}
 					}
@@ -389,7 +429,114 @@ func lookAlikes(r *vlib.R, d name) []name {
 	return []name{glued, glued.child("k"), par.child("." + d[0]), d.child("a.b"), d.child("k")}
 }
 
+// genExp3Case: the same histories over an NSEC3-signed zone (one parameter
+// tuple; plain or Opt-Out ring): bundles carry the matching / covering NSEC3
+// RRsets a real negative response would, every question travels with the
+// hashes the evaluator needs.
+func genExp3Case(r *vlib.R, emit func(string)) int {
+	pm, cm := expCeilings()
+	emit(fmt.Sprintf("exp new %d %d", pm, cm))
+	cnt := 1
+	apex := parseName(fmt.Sprintf("z%d.c02y.test", r.Intn(4)))
+	z := newZone(apex, 1)
+	z.add(apex, tNS, tSOA, tRRSIG, tDNSKEY, tNSEC3P)
+	owners := []name{apex.child("c"), apex.child("m"), apex.child("t")}
+	for _, o := range owners {
+		z.add(o, tA, tRRSIG)
+	}
+	z3 := &zone3{z: z, salt: []byte{0xab, 0xcd}, iter: 1, optOut: r.Chance(1, 3), opted: map[string]bool{}}
+	curZ3 = z3
+	ring := z3.ring()
+	curSet3 = ring
+	now := int64(0)
+	pick := func(h []byte, match bool) *rec3 {
+		if match {
+			return matchIn(ring, h)
+		}
+		return coverIn(ring, h)
+	}
+	bundle := func(seq int, nx bool) (string, name) {
+		var recs []*rec3
+		subject := vlib.Pick(r, append([]name{apex}, owners...))
+		qtype := []int{28, 16, 15, 33, 99, 13, 17, 18, 29, 35}[seq%10]
+		if nx {
+			subject = apex.child(fmt.Sprintf("q0%d", seq))
+			qtype = tA
+			recs = append(recs, pick(hashOf(apex, z3.salt, z3.iter), true), pick(hashOf(subject, z3.salt, z3.iter), false),
+				pick(hashOf(apex.child("*"), z3.salt, z3.iter), false))
+		} else {
+			recs = append(recs, pick(hashOf(subject, z3.salt, z3.iter), true))
+		}
+		seen := map[string]bool{}
+		var ss []string
+		for _, rc := range recs {
+			if rc == nil || seen[rc.ownerLab] {
+				continue
+			}
+			seen[rc.ownerLab] = true
+			ss = append(ss, fmt.Sprintf("%s^%d^%s", rc.String(), 10*(1+r.Intn(60)), sigsStr(genSigsExp(r, now))))
+		}
+		cut := "-"
+		if r.Chance(1, 5) {
+			cut = itoa(int(now) + 10*(1+r.Intn(30)))
+		}
+		kind := "nd"
+		if nx {
+			kind = "nx"
+		}
+		soa := fmt.Sprintf("%d,%d,%s", 10*(1+r.Intn(60)), 10*(1+r.Intn(60)), sigsStr(genSigsExp(r, now)))
+		return fmt.Sprintf("exp put3 %s %s %s %d %s %s %s %s", apex, kind, subject, qtype, soa, cut, strings.Join(ss, ";"), hashTable(subject, apex)), subject
+	}
+	var denied []name
+	asks := func() {
+		for i, o := range append([]name{apex}, owners...) {
+			emit(fmt.Sprintf("exp ask %s %d %s", o, []int{28, 16, 1, 43}[i%4], hashTable(o, apex)))
+			cnt++
+		}
+		for _, q := range []name{apex.child("q1"), apex.child("q2").child("deep"), apex.child("c").child("below")} {
+			emit(fmt.Sprintf("exp ask %s 1 %s", q, hashTable(q, apex)))
+			cnt++
+		}
+		for _, d := range denied {
+			for _, q := range []name{d.child("k"), d.parent().child("x." + d[0])} {
+				emit(fmt.Sprintf("exp ask %s 1 %s", q, hashTable(q, apex)))
+				cnt++
+			}
+		}
+	}
+	steps := 3 + r.Intn(4)
+	for i := 0; i < steps; i++ {
+		nx := r.Chance(2, 3)
+		op, subj := bundle(i, nx)
+		if nx {
+			denied = append(denied, subj)
+			if len(denied) > 2 {
+				denied = denied[1:]
+			}
+		}
+		emit(op)
+		cnt++
+		for j := 0; j < 1+r.Intn(3); j++ {
+			d := int64(5 + 10*r.Intn(8))
+			if j > 0 {
+				d = int64(10 * (1 + r.Intn(8)))
+			}
+			emit(fmt.Sprintf("exp adv %d", d))
+			now += d
+			cnt++
+			asks()
+		}
+		emit("exp adv 5")
+		now += 5
+		cnt++
+	}
+	return cnt
+}
+
 func genExpCase(r *vlib.R, emit func(string)) int {
+	if r.Chance(1, 3) {
+		return genExp3Case(r, emit)
+	}
 	pm, cm := expCeilings()
 	emit(fmt.Sprintf("exp new %d %d", pm, cm))
 	cnt := 1
